@@ -22,9 +22,9 @@ MCOutcome(r) ==
     [] r = "longphrase" -> [k |-> "fail", err |-> 34, validated |-> FALSE, key |-> "-", star1 |-> FALSE]
 
 VARIABLES obj, nr, gsbuf, deskey, hnd, heap, errno, ret, last, hist
-CONSTANTS MCObj, MCHnd, MCBlk, MCReqs, MCTokenFirst
+CONSTANTS MCObj, MCHnd, MCBlk, MCReqs, MCTokenFirst, MCFailureTokens
 X == INSTANCE XCrypt WITH Obj <- MCObj, Hnd <- MCHnd, Blk <- MCBlk,
-                          Req <- MCReqs, OutcomeOf <- MCOutcome, TokenFirst <- MCTokenFirst
+                          Req <- MCReqs, OutcomeOf <- MCOutcome, TokenFirst <- MCTokenFirst, FailureTokens <- MCFailureTokens
 
 vars == <<obj, nr, gsbuf, deskey, hnd, heap, errno, ret, last, hist>>
 
